@@ -160,3 +160,16 @@ macro_rules! implements {
         W::<$ty>(::core::marker::PhantomData).yes()
     }};
 }
+
+/// `is_send_val!(expr)` -> runtime bool: is the (possibly opaque) type of `expr` known to be Send here?
+macro_rules! is_send_val {
+    ($e:expr) => {{
+        struct W<'a, T: ?Sized>(&'a T);
+        trait No { fn yes(&self) -> bool { false } }
+        impl<T: ?Sized> No for W<'_, T> {}
+        impl<T: ?Sized + ::core::marker::Send> W<'_, T> { fn yes(&self) -> bool { true } }
+        W(&$e).yes()
+    }};
+}
+/// Compile-time witness that a future's Output is exactly `R`.
+pub fn output_is<R, F: ::core::future::Future<Output = R>>(_: &F) {}
